@@ -68,8 +68,15 @@ pub fn generate(thorough: bool, seed: u64, em: &mut Emitter) {
         let mut rc = r.fork();
         let r = &mut rc;
         let depth = 2 + r.below(2) as u32;
-        let claims = gen::gen_object(r, depth, 3, 1);
-        let marks = gen::gen_marking(r, &claims, true);
+        let mut claims = gen::gen_object(r, depth, 3, 1);
+        // one case in eight issues with nothing disclosable (with or without decoys): <JWT>~ and no _sd_alg
+        let marks = if r.chance(1, 8) { vec![] } else { gen::gen_marking(r, &claims, true) };
+        // one case in eight: the caller's claims use a reserved name somewhere; no conformant SD-JWT exists for
+        // them ("reserved names never used as claim names"), so the issuer has to refuse
+        let reserved = r.chance(1, 8);
+        if reserved {
+            gen::plant_reserved_name(r, &mut claims);
+        }
         let k = marks.len();
         // sub-lists: all 2^k for k <= 6 (quick) / 8 (thorough), 48 sampled ones above, always with none and all
         let limit = if thorough { 8 } else { 6 };
@@ -95,7 +102,9 @@ pub fn generate(thorough: bool, seed: u64, em: &mut Emitter) {
             "claims": claims, "paths": marks.iter().map(gen::render).collect::<Vec<_>>(),
             "marks": marks.iter().map(gen::tpath_json).collect::<Vec<_>>(),
             "decoy": if r.chance(1, 3) { json!(1 + r.below(6)) } else { Value::Null }, "cnf": cnf,
-            "expect_claims": expect, "subsets": subsets, "nontrivial": gen::marking_nontrivial(&marks),
+            "expect_claims": expect, "subsets": subsets, "nontrivial": reserved || marks.is_empty() || gen::marking_nontrivial(&marks),
+            "reserved_input": reserved,
+            "tag": if reserved { json!("reserved_name_in_claims") } else if marks.is_empty() { json!("nothing_disclosable") } else { Value::Null },
         }));
     }
     // Disclosure::build over names, values, salt lengths, algorithms
